@@ -22,6 +22,7 @@ CONSTANTS OracleVariants,   \* set of <<oracle, price, conf, ema, ema_conf>> (in
           EmodeSets,        \* set of <<bank, sequence of <<tag, init n, init d, maint n, maint d>> >>
           RiskPatches,      \* set of <<bank, patch record>> (op_state / init_limit) by the group admin
           BoundaryPairs,    \* set of <<account, debt bank>> for which the borrow boundary is located
+          SwbVariants,      \* set of <<oracle, value, std dev>> (decimal strings at 10^-18)
           StaleTicks,       \* clock advances without refreshing the feeds
           BorrowCap         \* upper end of the bisection (native units, < 2^31)
 
@@ -42,6 +43,12 @@ SetOracle(v) ==
       a == [op |-> "set_oracle", oracle |-> o, price |-> v[2], conf |-> v[3], ema |-> v[4], ema_conf |-> v[5]]
       post == [st EXCEPT !.oracles[o] = [@ EXCEPT !.price = BOfInt(v[2]), !.conf = BOfInt(v[3]), !.ema = BOfInt(v[4]), !.ema_conf = BOfInt(v[5]), !.ts = Now]]
   IN Do(a, "ok", post, [oracles |-> (o :> [price |-> BOfInt(v[2]), conf |-> BOfInt(v[3]), ema |-> BOfInt(v[4]), ema_conf |-> BOfInt(v[5]), ts |-> Now])])
+
+SetSwb(v) ==
+  LET o == v[1]
+      a == [op |-> "set_oracle", oracle |-> o, swb_value |-> v[2], swb_std |-> v[3]]
+      post == [st EXCEPT !.oracles[o] = [@ EXCEPT !.swb_value = BOfStr(v[2]), !.swb_std = BOfStr(v[3]), !.ts = Now]]
+  IN Do(a, "ok", post, [oracles |-> (o :> [swb_value |-> BOfStr(v[2]), swb_std |-> BOfStr(v[3]), ts |-> Now])])
 
 \* ---- e-mode entries on a debt bank (emode admin); only coherent sets are offered (validity itself is Config.tla's subject)
 EmptyEntry == [tag |-> 0, flags |-> 0, init |-> BZero, maint |-> BZero]
@@ -84,6 +91,7 @@ NextR ==
   /\ \/ \E d \in Ticks : TickR(d, TRUE)
      \/ \E d \in StaleTicks : TickR(d, FALSE)
      \/ \E v \in OracleVariants : SetOracle(v)
+     \/ \E v \in SwbVariants : SetSwb(v)
      \/ \E c \in EmodeSets : ConfigEmode(c)
      \/ \E c \in RiskPatches : PatchBank(c)
      \/ \E p \in BoundaryPairs : BoundaryBorrow(p[1], p[2])
@@ -91,6 +99,6 @@ NextR ==
      \/ \E t \in LiqTriples, q \in Amounts : Liquidate(t[1], t[2], t[3], t[4], q)
 SpecR == Init /\ [][NextR]_vars
 
-ViewR == <<View, [o \in DOMAIN Oracles |-> <<Oracles[o].price, Oracles[o].conf, Oracles[o].ema, Oracles[o].ema_conf, Oracles[o].ts>>],
+ViewR == <<View, [o \in DOMAIN Oracles |-> <<Oracles[o].price, Oracles[o].conf, Oracles[o].ema, Oracles[o].ema_conf, Oracles[o].ts, Oracles[o].swb_value, Oracles[o].swb_std>>],
            [b \in BankNames |-> <<st.banks[b].emode.entries, st.banks[b].cfg.init_limit>>]>>
 =============================================================================
